@@ -440,3 +440,5 @@ M("r5-inline-fragments-one-level", "C01", "C01.R11", RFF, "            inline_fr
 M("r5-inline-fragments-spread-ignored", "C01", "C01.R11", RFF, "        elif isinstance(selection, FragmentSpreadNode):\n            fragment_def = fragments_definitions[selection.name.value]", "        elif isinstance(selection, FragmentSpreadNode) and False:\n            fragment_def = fragments_definitions[selection.name.value]")
 M("r5-visited-break", "C09", "C04.R9", ITF, "            if node not in visited:\n                visited.add(node)\n                result.append(node)\n\n                for neighbor in self._dependencies[node]:\n                    dfs(neighbor)",
   "            visited.add(node)\n            result.append(node)\n            for neighbor in self._dependencies[node]:\n                if neighbor in visited:\n                    break\n                visited.add(neighbor)\n                dfs(neighbor)")
+M("r5-shorter-results-one-level", "C15", "C15.R9", "contrib/shorter_results.py", "        fields.extend(_get_all_fields(class_dict[base.id], class_dict))", "        fields.extend(f for f in class_dict[base.id].body if isinstance(f, ast.AnnAssign))")
+M("r5-template-bypasses-map", "C13", "C03.R5", CLF, 'generate_name(variable_names[self._data_variable])', 'generate_name(self._data_variable)')
